@@ -31,6 +31,10 @@ type gateRun struct {
 
 var gateNoCache = os.Getenv("VERIF_NOCACHE") == "1"
 
+// gateBoundOf lets a harness give individual scenarios their own preemption bound
+// (recorded in the report as a note).
+var gateBoundOf func(sc any) (int, bool)
+
 func gateFirstLine(s string) string {
 	if i := strings.IndexByte(s, '\n'); i >= 0 {
 		return s[:i]
@@ -41,6 +45,15 @@ func gateFirstLine(s string) string {
 // gateExplore explores every scenario. runOne must be deterministic for a
 // given (scenario, prefix).
 func gateExplore[S any](t *testing.T, r *rep.Report, scs []S, bound int, runOne func(sc S, prefix []int, expect []gate.PointRec) gateRun) {
+	gateExploreOpt(t, r, scs, bound, nil, runOne)
+}
+
+// gateExploreOpt is gateExplore with a predicate naming the scenarios in which the code
+// under test itself takes decisions the explorer cannot own (Go map iteration order): there a
+// replay that does not see what its parent saw is counted, not treated as a harness error, and
+// a violating execution is reported as observed (it happened on the real code) even if the
+// same choice list does not reproduce it every time.
+func gateExploreOpt[S any](t *testing.T, r *rep.Report, scs []S, bound int, unowned func(S) bool, runOne func(sc S, prefix []int, expect []gate.PointRec) gateRun) {
 	debug.SetGCPercent(-1)
 	if data := rep.ReplayInput(); data != nil {
 		var rj struct {
@@ -75,7 +88,13 @@ func gateExplore[S any](t *testing.T, r *rep.Report, scs []S, bound int, runOne 
 			continue
 		}
 		sj, _ := json.Marshal(sc)
-		ex := &gate.Explorer{Bound: bound, Shard: 0, NShards: 1, Deadline: deadline}
+		scBound := bound
+		if gateBoundOf != nil {
+			if b, ok := gateBoundOf(any(sc)); ok {
+				scBound = b
+			}
+		}
+		ex := &gate.Explorer{Bound: scBound, Shard: 0, NShards: 1, Deadline: deadline}
 		execCount := 0
 		ex.RunOne = func(prefix []int, expect []gate.PointRec, owned bool) *gate.Exec {
 			g := runOne(sc, prefix, expect)
@@ -85,6 +104,10 @@ func gateExplore[S any](t *testing.T, r *rep.Report, scs []S, bound int, runOne 
 			}
 			if g.x.Diverged != "" {
 				// a divergence must be reproducible to count as a harness error
+				if unowned != nil && unowned(sc) {
+					r.Count("replays_not_reproduced_in_scenarios_with_unowned_nondeterminism", 1)
+					return g.x
+				}
 				g2 := runOne(sc, prefix, expect)
 				if g2.x.Diverged != "" {
 					r.Note("DIVERGENCE scenario=%s prefix=%v: %s", sj, prefix, g.x.Diverged)
@@ -113,6 +136,10 @@ func gateExplore[S any](t *testing.T, r *rep.Report, scs []S, bound int, runOne 
 						}
 					}
 				}
+				if ok < 4 && unowned != nil && unowned(sc) {
+					r.Count("violations_not_reproduced_every_time", 1)
+					ok = 4 // observed on the real code; the schedule is not fully ours in this scenario
+				}
 				if ok < 4 {
 					r.Note("UNSTABLE verdict %s on scenario %s choices %v (%d/4 replays)", v.key, sj, g.x.Choices(), ok)
 					r.Count("unstable", 1)
@@ -133,6 +160,9 @@ func gateExplore[S any](t *testing.T, r *rep.Report, scs []S, bound int, runOne 
 		r.Count("pruned_by_state_cache", ex.Stats.PrunedByKey)
 		r.Count("distinct_state_keys", ex.Stats.DistinctKeys)
 		r.Count("overruns", ex.Stats.Overruns)
+		if ex.Stats.Executions > 20000 || ex.Stats.Capped {
+			r.Note("heavy scenario #%d: %d executions, capped=%v: %s", si, ex.Stats.Executions, ex.Stats.Capped, sj)
+		}
 		if ex.Stats.Capped {
 			boundDoneAll = false
 			r.NotExhaustive(fmt.Sprintf("budget reached in scenario %d of %d", si, len(scs)))
